@@ -23,6 +23,7 @@ var c15Seps = []string{" | ", " - ", " / ", ` \ `, " > ", " » ", ": ", " : ", "
 func (g *G) c15Title() (string, bool) {
 	lenClass := g.weighted("tlen", []wc{{"short", 15}, {"normal", 65}, {"long", 20}})
 	nparts := g.intn(1, 4, "tparts")
+	script := g.pick("script", "ascii", "ascii", "cyrillic", "greek", "accented")
 	var parts []string
 	for i := 0; i < nparts; i++ {
 		k := g.intn(1, 8, "tpw")
@@ -32,7 +33,7 @@ func (g *G) c15Title() (string, bool) {
 		case "long":
 			k = g.intn(8, 14, "tpwl")
 		}
-		parts = append(parts, g.words2(k))
+		parts = append(parts, g.titleWords(k, script))
 	}
 	if lenClass == "short" {
 		parts = parts[:min(2, len(parts))]
@@ -43,6 +44,9 @@ func (g *G) c15Title() (string, bool) {
 		title += c15Seps[g.intn(0, len(c15Seps)-1, "tsep")] + p
 		hasSep = true
 	}
+	if g.intn(0, 5, "endpunct") == 0 {
+		title += g.pick("endp", "?", "!", ".", "...", "?!")
+	}
 	return title, hasSep
 }
 
@@ -51,6 +55,28 @@ func (g *G) words2(k int) string {
 	ws := make([]string, k)
 	for i := range ws {
 		ws[i] = g.tok()
+	}
+	return strings.Join(ws, " ")
+}
+
+// titleWords: like words2, but a word may carry a multi-byte prefix (Cyrillic, Greek, accented
+// Latin: character count and byte count then differ) or an apostrophe.
+func (g *G) titleWords(k int, script string) string {
+	ws := make([]string, k)
+	for i := range ws {
+		w := g.tok()
+		switch script {
+		case "cyrillic":
+			w = "слово" + w
+		case "greek":
+			w = "λέξη" + w
+		case "accented":
+			w = "éàü" + w
+		}
+		if g.intn(0, 11, "apos") == 0 {
+			w += g.pick("aposform", "'s", "n't", "'")
+		}
+		ws[i] = w
 	}
 	return strings.Join(ws, " ")
 }
